@@ -32,6 +32,8 @@ type shadowFS struct {
 	sdirs []map[string]bool
 	// kinds[i] = "<kind> <path>" of event number i (the event that leads from snaps[i] to the next state)
 	kinds []string
+	// lazy: the scenario never asks for a crash image; events are counted, states are not kept
+	lazy bool
 }
 
 func newShadowFS() *shadowFS {
@@ -39,6 +41,11 @@ func newShadowFS() *shadowFS {
 }
 
 func (s *shadowFS) snapshot() {
+	if s.lazy {
+		s.snaps = append(s.snaps, nil)
+		s.sdirs = append(s.sdirs, nil)
+		return
+	}
 	m := make(map[string]shadowFile, len(s.files))
 	for k, v := range s.files {
 		m[k] = v
